@@ -87,7 +87,7 @@ impl<'a> TmplGen<'a> {
     fn binding(&mut self) -> String {
         let e = self.expr();
         match self.rng.below(4) {
-            0 => format!("{{{{{}}}}}", e.trim_start_matches('{')),
+            0 if !e.starts_with('{') && !e.ends_with('}') => format!("{{{{{}}}}}", e),
             1 => format!("{{{{ {} }}}}", e),
             2 => format!("{{{{  {}\n}}}}", e),
             _ => format!("{{{{ {} }}}}", e),
@@ -301,7 +301,7 @@ impl<'a> TmplGen<'a> {
                 // slot value refs introduce scopes for the children only
                 let mut slot_scopes = vec![];
                 let mut slot_text = String::new();
-                if self.cfg.allow_slots && self.rng.chance(1, 8) {
+                if self.cfg.allow_slots && !with_for && !with_if && self.rng.chance(1, 8) {
                     let n = 1 + self.rng.below(2);
                     for k in 0..n {
                         let name = ["sv", "item", "a-b"][k % 3];
